@@ -26,7 +26,7 @@ Classes == [
   numProp   |-> {"ok", "two", "zero"},
   verts     |-> {"ok", "ragged", "empty", "nanpos", "infpos", "nanprop", "few"},
   tris      |-> {"ok", "ragged", "empty", "idxEqN", "idxHuge", "degenerate", "flipped", "dup"},
-  merge     |-> {"ok", "none", "lenDiff", "fromOOB", "toEqN", "toHuge", "selfLoop"},
+  merge     |-> {"ok", "none", "lenDiff", "fromOOB", "toEqN", "toEqNall", "toHuge", "selfLoop"},
   runIndex  |-> {"ok", "none", "noEnd", "single", "tooLong", "beyond", "nonMonotone", "notMult3", "huge"},
   runID     |-> {"ok", "none", "one"},
   runXf     |-> {"ok", "none", "short", "nan", "singular"},
@@ -57,7 +57,7 @@ Validate(m) ==
   ELSE IF m.runXf = "nan" THEN "InvalidConstruction"
   ELSE IF m.tangents = "nan" THEN "InvalidConstruction"
   ELSE IF m.tolerance \in {"nan", "inf"} THEN "InvalidConstruction"
-  ELSE IF m.merge \in {"fromOOB", "toEqN", "toHuge"} THEN "MergeIndexOutOfBounds"
+  ELSE IF m.merge \in {"fromOOB", "toEqN", "toEqNall", "toHuge"} THEN "MergeIndexOutOfBounds"
   ELSE IF m.runIndex \in {"beyond", "nonMonotone", "huge"} THEN "RunIndexWrongLength"     \* rung RunIndexContents
   ELSE IF m.tris \in {"idxEqN", "idxHuge"} THEN "VertexOutOfBounds"
   ELSE IF m.tris \in {"ragged", "dup", "flipped"} \/ m.verts = "ragged" \/ m.merge = "none" THEN "Any"
@@ -90,7 +90,7 @@ Next == /\ ~done /\ done' = TRUE /\ UNCHANGED m
 LadderTotal == Validate(m) \in Errors \cup {"Any"}
 (* malformed indices/lengths are never accepted silently: these classes must  *)
 (* end in an error (the property: never reads or writes out of bounds)        *)
-Unsafe(mm) == \/ mm.tris \in {"idxEqN", "idxHuge"} \/ mm.merge \in {"fromOOB", "toEqN", "toHuge", "lenDiff"}
+Unsafe(mm) == \/ mm.tris \in {"idxEqN", "idxHuge"} \/ mm.merge \in {"fromOOB", "toEqN", "toEqNall", "toHuge", "lenDiff"}
               \/ mm.runIndex \in {"beyond", "huge", "nonMonotone"} \/ mm.tangents \in {"short", "long", "notMult4"}
               \/ mm.faceID \in {"short", "long"} \/ (mm.runXf = "short" /\ mm.runID # "none")
 UnsafeRejected == (Unsafe(m) /\ ~(m.verts = "empty" /\ m.tris = "empty")) => Validate(m) \notin {"NoError", "Any"}
